@@ -286,23 +286,27 @@ Qed.
 
 (* ------------------------------------------------------------------ one event *)
 
-Definition ev_ok (ev : event) : Prop :=
-  match ev with ECmd _ c => cmd_loud c = true /\ cmd_depth c <= max_batch_nest | _ => True end.
+(* what may be quiet (cmd_loud_for: everything that changes the tree is announced; the observer's own SUBSCRIBE: asks for
+   its initial values), and the server's BATCH nesting limit *)
+Definition ev_ok (o : sid) (ev : event) : Prop :=
+  match ev with ECmd b c => cmd_loud_for (N.eqb b o) c = true /\ cmd_depth c <= max_batch_nest | _ => True end.
 
-(* what the observer itself may send: plain commands (no explicit GETDATA, unsubscribes not batched), with
-   well-formed SUBSCRIBE: field lists; or an unsubscribe as a Message of its own *)
-Definition ev_clean (o : sid) (ev : event) : Prop :=
+(* what the observer itself may send in the state [w]: commands without unsubscribe whose SUBSCRIBE: field lists are well
+   formed and whose explicit GETDATA keys are subscriptions it holds at that moment; or an unsubscribe as a Message of its own *)
+Definition ev_clean (o : sid) (w : world) (ev : event) : Prop :=
   match ev with
-  | ECmd b c => b = o -> cmd_subs_ok c /\ (cmd_plain c = true \/ exists subs, c = CUnsubscribe subs)
+  | ECmd b c => b = o -> cmd_subs_ok c /\
+                ((cmd_nounsub c = true /\ forall ss, get_session (w_srv w) o = Some ss -> cmd_covered (s_subs ss) c)
+                 \/ exists subs, c = CUnsubscribe subs)
   | _ => True
   end.
 
-Lemma plain_no_unsub : forall c m, cmd_plain c = true -> snd (client_cmd m c) = false.
+Lemma nounsub_no_unsub : forall c m, cmd_nounsub c = true -> snd (client_cmd m c) = false.
 Proof.
-  induction c using cmd_ind'; intros m Hp; cbn [client_cmd cmd_plain snd] in *; auto; try discriminate.
+  induction c using cmd_ind'; intros m Hp; cbn [client_cmd cmd_nounsub snd] in *; auto; try discriminate.
   (* BATCH *)
-  assert (Hg : forall l0 acc, Forall (fun c => forall m, cmd_plain c = true -> snd (client_cmd m c) = false) l0 ->
-            forallb cmd_plain l0 = true ->
+  assert (Hg : forall l0 acc, Forall (fun c => forall m, cmd_nounsub c = true -> snd (client_cmd m c) = false) l0 ->
+            forallb cmd_nounsub l0 = true ->
             snd ((fix go (l : list cmd) (acc : matcher * bool) : matcher * bool :=
                     match l with
                     | [] => acc
@@ -420,7 +424,7 @@ Lemma snd_client_unsub : forall m subs, snd (client_cmd m (CUnsubscribe subs)) =
 Proof. reflexivity. Qed.
 
 Lemma world_cmd : forall B w b c0 o, small (B + cmd_budget c0) -> winv B w -> wJ w o ->
-  ev_ok (ECmd b c0) -> ev_clean o (ECmd b c0) ->
+  ev_ok o (ECmd b c0) -> ev_clean o w (ECmd b c0) ->
   winv (B + cmd_budget c0) (world_step fx w (ECmd b c0)) /\ wJ (world_step fx w (ECmd b c0)) o.
 Proof.
   intros B w b c0 o HB [I Hq Hhas Hmok] HJ [Hloud Hdepth] Hclean. cbn [ev_clean] in Hclean.
@@ -455,11 +459,14 @@ Proof.
     - intros c' Hc'. apply in_map_iff in Hc' as [c [H1 H2]]. subst c'. rewrite Hupd_mir. now apply Hmok.
     - intros c' Hc'. apply in_map_iff in Hc' as [c [H1 H2]]. subst c'. rewrite Hupd_id. now apply Hhas1. }
   (* J for the observer's clients, before any pruning, whenever the command is not the observer's unsubscribe *)
-  assert (HJ1 : (b = o -> cmd_plain c0 = true) -> forall c, In c (w_clients w) -> c_id c = o ->
+  assert (HJ1 : (b = o -> cmd_nounsub c0 = true /\ forall ss, get_session (w_srv w) o = Some ss -> cmd_covered (s_subs ss) c0) ->
+            forall c, In c (w_clients w) -> c_id c = o ->
             (exists ss, get_session sv1 o = Some ss) /\ J (c_mirror c) sv1 o).
   { intros Hpl c Hc Hid. destruct (Hhas1 c Hc) as [ss1 [Hss1 _]]. rewrite Hid in Hss1. split; [eauto|].
     apply J_push_all. apply (handle_J fx guard_on overlap_on push_on (c_mirror c) o c0 0 (w_srv w) b B); auto.
-    intros E. destruct (Hclean E) as [Hs _]. split; auto. }
+    intros E. destruct (Hclean E) as [Hs _]. destruct (Hpl E) as [Hp1 Hp2]. split; [auto|split; [auto|]].
+    intros ss Hss. split; [|now apply Hp2].
+    destruct Hq as [_ Hq2]. apply (Hq2 ss). apply find_session_some in Hss. tauto. }
   destruct (snd (client_cmd empty_matcher c0)) eqn:Hflag.
   - (* some unsubscribe in the command: its sender prunes *)
     set (pr := fun x : client => if N.eqb (c_id x) b then prune x else x).
@@ -480,7 +487,7 @@ Proof.
       * (* the observer's own command: it must be its unsubscribe *)
         apply N.eqb_eq in Eb. assert (Ebo : b = o) by congruence.
         destruct (Hclean Ebo) as [_ [Hpl|[subs Hun]]].
-        { rewrite (plain_no_unsub c0 empty_matcher Hpl) in Hflag. discriminate. }
+        { rewrite (nounsub_no_unsub c0 empty_matcher (proj1 Hpl)) in Hflag. discriminate. }
         subst c0. destruct (Hhas1 c H6) as [ss1 [Hss1 Hsub1]].
         destruct (Hhas c H6) as [ss0 [Hss0 Hsub0]].
         unfold prune, deliver. rewrite Hupd_id, Hss1. cbn [c_mirror c_subs c_id]. rewrite Hupd_mir, Hsub1.
@@ -489,7 +496,7 @@ Proof.
           try (cbn [cmd_budget] in HB; rewrite Nat.add_0_r in HB; exact HB); try (apply HJ; auto).
       * (* somebody else's client is pruned, not this one *)
         apply N.eqb_neq in Eb.
-        assert (Hne : b = o -> cmd_plain c0 = true) by (intros E; congruence).
+        assert (Hne : b = o -> cmd_nounsub c0 = true /\ forall ss, get_session (w_srv w) o = Some ss -> cmd_covered (s_subs ss) c0) by (intros E; congruence).
         destruct (HJ1 Hne c H6 Hid) as [[ss Hss] HJc].
         unfold deliver. rewrite Hupd_id, Hid, Hss. cbn [c_mirror]. rewrite Hupd_mir. now apply deliver_J.
   - split; [exact HW1|].
@@ -502,7 +509,7 @@ Qed.
 (* ------------------------------------------------------------------ histories *)
 
 Lemma world_step_ok : forall B w ev o, small (B + ev_budget ev) -> winv B w -> wJ w o ->
-  wf_event (w_srv w) ev -> ev_ok ev -> ev_clean o ev ->
+  wf_event (w_srv w) ev -> ev_ok o ev -> ev_clean o w ev ->
   winv (B + ev_budget ev) (world_step fx w ev) /\ wJ (world_step fx w ev) o.
 Proof.
   intros B w [s host nm|s|b c] o HB HW HJ Hwf Hok Hcl; cbn [ev_budget] in *; try rewrite Nat.add_0_r in *.
@@ -518,13 +525,20 @@ Fixpoint wf_wrun (w : world) (evs : list event) : Prop :=
   | ev :: r => wf_event (w_srv w) ev /\ wf_wrun (world_step fx w ev) r
   end.
 
+(* the condition on the observer's own commands, read along the run *)
+Fixpoint clean_wrun (o : sid) (w : world) (evs : list event) : Prop :=
+  match evs with
+  | [] => True
+  | ev :: r => ev_clean o w ev /\ clean_wrun o (world_step fx w ev) r
+  end.
+
 Theorem world_run_ok : forall evs B w o, small (B + run_budget evs) -> winv B w -> wJ w o ->
-  wf_wrun w evs -> Forall ev_ok evs -> Forall (ev_clean o) evs ->
+  wf_wrun w evs -> Forall (ev_ok o) evs -> clean_wrun o w evs ->
   winv (B + run_budget evs) (world_run fx evs w) /\ wJ (world_run fx evs w) o.
 Proof.
   induction evs as [|ev evs IH]; intros B w o HB HW HJ Hwf Hok Hcl; cbn [world_run fold_left run_budget] in *.
   - rewrite Nat.add_0_r. auto.
-  - destruct Hwf as [Hw1 Hw2]. inversion Hok as [|? ? Hok1 Hok2]; subst. inversion Hcl as [|? ? Hcl1 Hcl2]; subst.
+  - destruct Hwf as [Hw1 Hw2]. inversion Hok as [|? ? Hok1 Hok2]; subst. destruct Hcl as [Hcl1 Hcl2].
     destruct (world_step_ok B w ev o) as [HW1 HJ1]; auto.
     { eapply small_le; [|exact HB]. lia. }
     rewrite Nat.add_assoc. apply IH; auto. now rewrite <- Nat.add_assoc.
@@ -545,7 +559,7 @@ Qed.
    client of o holds, at every path that is not in its own subtree, exactly what its subscriptions (paths and filters)
    select of the true tree -- the node's current payload if some subscription accepts it, nothing otherwise. *)
 Theorem mirror_converges_partial : forall evs o,
-  wf_wrun empty_world evs -> Forall ev_ok evs -> Forall (ev_clean o) evs -> small (run_budget evs) ->
+  wf_wrun empty_world evs -> Forall (ev_ok o) evs -> clean_wrun o empty_world evs -> small (run_budget evs) ->
   forall c ss, In c (w_clients (world_run fx evs empty_world)) -> c_id c = o ->
   get_session (w_srv (world_run fx evs empty_world)) o = Some ss ->
   forall q, own_node ss q = false ->
